@@ -14,6 +14,7 @@ import (
 // batch description (written by the coordinator)
 
 type BatchProg struct {
+	Masks  []int          `json:"masks,omitempty"`
 	ID     string         `json:"id"`
 	Schema *schema.Schema `json:"schema"`
 	Bop    string         `json:"bop"`
